@@ -178,6 +178,16 @@ impl MemoryManager {
     }
 }
 
+impl Drop for MemoryManager {
+    fn drop(&mut self) {
+        // retirements that never got their reclamation cycle
+        let mut pending = self.wait_to_free.lock().unwrap();
+        for val in pending.drain(..) {
+            val.delete();
+        }
+    }
+}
+
 impl Drop for MemoryManagerInner {
     fn drop(&mut self) {
         for val in self.tofree.drain(..) {
